@@ -2,7 +2,8 @@
    (induction over the list of collected notes), the slur branch of RunCore.emit_note, and the final flush
    of Compile.tracks_for_writer.  Vocabulary of the statements (runs of equal pitch, end of the group, the
    events each mode must write) is defined first and characterised independently of the model's loops. *)
-From Sakura.Model Require Import Base Event Song F32 Tie RunCore Compile.
+From Sakura.Model Require Import Base Event Song F32 Tie RunCore Compile RunRsv.
+From Sakura.Proofs Require Import ExtP IdleP RsvP.
 From Coq Require Import Lia Sorted.
 Open Scope Z_scope.
 
@@ -691,7 +692,9 @@ Proof.
     + apply K. intros t. pose proof (check_tie_frame_eq (s_timebase s2) (push_tie_note t ev)) as F.
       unfold tie_frame_eq in *. cbn [push_tie_note tr_set_tie tr_timepos tr_channel tr_length tr_octave tr_velocity tr_qlen
         tr_timing tr_track_key tr_tie_mode tr_tie_value] in F. exact F.
-    + apply K. intros t. unfold tie_frame_eq, tr_push_event. cbn. tauto.
+    + apply K. intros t.
+      destruct (trk_ext_frame _ _ (write_cc_notes_ext t (tr_timepos (cur_track s)))) as (F1 & F2 & F3 & F4 & F5 & F6 & F7 & F8 & F9 & F10 & _).
+      unfold tie_frame_eq, tr_push_event. cbn. tauto.
 Qed.
 
 (* what happens to the group: '&' collects, the first untied note closes and writes the group *)
@@ -700,7 +703,9 @@ Theorem emit_note_group s ev nl slur :
   exists s', emit_note s ev nl true slur = Ok s' /\
     let t := cur_track s in let t' := cur_track s' in
     (1 <= slur -> tr_tie_notes t' = tr_tie_notes t ++ [ev] /\ tr_events t' = tr_events t) /\
-    (slur < 1 -> tr_tie_notes t = [] -> tr_tie_notes t' = [] /\ tr_events t' = tr_events t ++ [ev]) /\
+    (slur < 1 -> tr_tie_notes t = [] -> tr_tie_notes t' = [] /\
+       (* the controller values reserved for this note (y.onNote / y.onNoteWave) are written first; none on an idle track *)
+       exists cc, Forall plain_ev cc /\ tr_events t' = tr_events t ++ cc ++ [ev] /\ (tr_rsv t = rsv_new -> cc = [])) /\
     (slur < 1 -> tr_tie_notes t <> [] -> tr_tie_notes t' = [] /\
        exists first rest, tr_tie_notes t ++ [ev] = first :: rest /\
          tr_events t' = tr_events t ++ tie_out (s_timebase s) t first rest).
@@ -715,25 +720,33 @@ Proof.
               tr_tie_notes (cur_track s2) = tr_tie_notes (cur_track s) /\ tr_events (cur_track s2) = tr_events (cur_track s) /\
               tie_frame_eq (cur_track s2) (tr_set_octave (tr_set_timepos (cur_track s) (tr_timepos (cur_track s) + nl))
                                                          (tr_octave (cur_track s) - s_octave_once s)) /\
-              tr_bend_range (cur_track s2) = tr_bend_range (cur_track s)).
+              tr_bend_range (cur_track s2) = tr_bend_range (cur_track s) /\ tr_rsv (cur_track s2) = tr_rsv (cur_track s)).
   { subst s2. destruct (s_octave_once s1 =? 0) eqn:E.
     - split; [exact Hc1|]. split; [exact Hh|]. split; [reflexivity|]. rewrite A5. split; [reflexivity|]. split; [reflexivity|].
-      split; [|reflexivity]. apply Z.eqb_eq in E. change (s_octave_once s1) with (s_octave_once s) in E. rewrite E, Z.sub_0_r.
+      split; [|split; reflexivity]. apply Z.eqb_eq in E. change (s_octave_once s1) with (s_octave_once s) in E. rewrite E, Z.sub_0_r.
       unfold tie_frame_eq. cbn. tauto.
     - destruct (upd_cur_facts s1 (fun t => tr_set_octave t (tr_octave t - s_octave_once s1)) Hc1) as [C1 [C2 [_ [_ C5]]]].
       split; [unfold cur_valid; cbn [s_set_octave_once s_cur s_tracks]; rewrite C1, C2; exact Hc1|].
       split; [exact Hh|]. split; [reflexivity|].
       unfold cur_track in *. cbn [s_set_octave_once s_tracks s_cur]. rewrite C5, A5.
-      split; [reflexivity|]. split; [reflexivity|]. split; [|reflexivity]. unfold tie_frame_eq. cbn. tauto. }
-  destruct B as [Hc2 [B5 [Btb [Bt [Be [Bf Bbr]]]]]]. rewrite B5.
+      split; [reflexivity|]. split; [reflexivity|]. split; [|split; reflexivity]. unfold tie_frame_eq. cbn. tauto. }
+  destruct B as [Hc2 [B5 [Btb [Bt [Be [Bf [Bbr Brs]]]]]]]. rewrite B5.
   destruct (slur >=? 1) eqn:S1.
   - eexists. split; [reflexivity|]. cbv zeta. destruct (upd_cur_facts s2 (fun t => push_tie_note t ev) Hc2) as [_ [_ [_ [_ D5]]]].
     rewrite D5. cbn [push_tie_note tr_set_tie tr_tie_notes tr_events]. rewrite Bt, Be.
     split; [intros _; split; reflexivity|]. split; intros; lia.
   - destruct (tr_tie_notes (cur_track s2)) as [|x l] eqn:T; cbn [negb].
-    + eexists. split; [reflexivity|]. cbv zeta. destruct (upd_cur_facts s2 (fun t => tr_push_event t ev) Hc2) as [_ [_ [_ [_ D5]]]].
-      rewrite D5. cbn [tr_push_event tr_set_events tr_tie_notes tr_events]. rewrite T, Be, <- Bt.
-      split; [intros; lia|]. split; [intros; split; reflexivity|]. intros _ N. congruence.
+    + eexists. split; [reflexivity|]. cbv zeta.
+      destruct (upd_cur_facts s2 (fun t => tr_push_event (write_cc_notes t (tr_timepos (cur_track s))) ev) Hc2) as [_ [_ [_ [_ D5]]]].
+      rewrite D5.
+      destruct (trk_ext_frame _ _ (write_cc_notes_ext (cur_track s2) (tr_timepos (cur_track s))))
+        as (_ & _ & _ & _ & _ & _ & _ & _ & _ & _ & _ & Ftn & cc & Hcc & Fev).
+      cbn [tr_push_event tr_set_events tr_tie_notes tr_events]. rewrite Ftn, Fev, T, Be, <- Bt.
+      split; [intros; lia|]. split; [|intros _ N; congruence].
+      intros _ _. split; [reflexivity|]. exists cc. split; [exact Hcc|]. split; [rewrite <- app_assoc; reflexivity|].
+      intros Hidle. rewrite <- Brs in Hidle.
+      rewrite (write_cc_notes_idle (cur_track s2) _ Hidle) in Fev. rewrite Be in Fev.
+      rewrite <- (app_nil_r (tr_events (cur_track s))) in Fev at 1. apply app_inv_head in Fev. symmetry. exact Fev.
     + eexists. split; [reflexivity|]. cbv zeta.
       destruct (upd_cur_facts s2 (fun t => check_tie_notes (s_timebase s2) (push_tie_note t ev)) Hc2) as [_ [_ [_ [_ D5]]]].
       rewrite D5. split; [intros; lia|]. split; [intros _ N; congruence|]. intros _ _.
